@@ -195,7 +195,9 @@ impl ServiceControl for ServiceController {
                 continue;
             }
             if let Some(path) = process.exe() {
-                if resolved_path == path {
+                // (the path as recorded is matched as well: where the resolved form carries a prefix the
+                // process table does not use, e.g. `\\?\` on Windows, only the recorded form compares equal)
+                if resolved_path == path || bin_path == path {
                     // There does not seem to be any easy way to get the process ID from the `Pid`
                     // type. Probably something to do with representing it in a cross-platform way.
                     trace!("Found process {bin_path:?} with PID: {pid}");
